@@ -288,7 +288,7 @@ def execute(plan: dict) -> dict:
                 violations.append(viol('C11/end-of-rib-markers', f'neighbor {nb["peer_ip"]} session #{sess.index}: End-of-RIB received for {sorted(sess.table.eors)}, negotiated families {fams}', got=str(sorted(sess.table.eors)), want=str(fams)))
                 return
             pv = RW.peer_view(sess.table)
-            rep = {k: (RW.LOCAL if v[0] == 'self' else v[0], v[1]) for k, v in RW.reported_table(peer.neighbor, nb['addpath']).items()}
+            rep = {k: ((RW.LOCAL if v[0] == 'self' else v[0]),) + tuple(v[1:]) for k, v in RW.reported_table(peer.neighbor, nb['addpath']).items()}
             if pv != rep:
                 d = RW.diff_tables(pv, rep, 'peer', 'reported')
                 violations.append(viol('C11/peer-table-differs-from-reported', f'neighbor {nb["peer_ip"]} session #{sess.index} (after {sess.index} earlier sessions): ' + '; '.join(d), session=sess.index))
